@@ -347,6 +347,9 @@ func realmPersist() []program {
 
 func allPrograms(depth int) []program {
 	var ps []program
+	// construction / realm-value programs first: a budget-capped run still covers them
+	ps = append(ps, constructions()...)
+	ps = append(ps, realmPersist()...)
 	seen := map[string]bool{}
 	for _, e := range paths(depth) {
 		for _, p := range writes(e) {
@@ -357,8 +360,6 @@ func allPrograms(depth int) []program {
 			ps = append(ps, p)
 		}
 	}
-	ps = append(ps, constructions()...)
-	ps = append(ps, realmPersist()...)
 	sort.SliceStable(ps, func(i, j int) bool { return false })
 	for i := range ps {
 		ps[i].id = i
